@@ -112,6 +112,13 @@ VARIANTS = [
                 # root node should always exist
                 pass
             else:''', expect=("C02-NODE", "whole-entry")),
+    dict(name="non-inplace restore_ind pops from self before copying", kind="break", file=CORE,
+         old="        tree = self if inplace else self.copy()\n\n        # pop sliced index info\n        si = tree.sliced_inds.pop(ind)\n",
+         new="        si = self.sliced_inds.pop(ind)\n\n        tree = self if inplace else self.copy()\n",
+         expect=("C02-PURE", "restore_ind")),
+    dict(name="copies share the preprocessing dict", kind="break", file=CORE,
+         old='            "root",\n            "size_dict",\n', new='            "root",\n            "preprocessing",\n            "size_dict",\n',
+         expect=("C02-COPY", "preprocessing")),
     # ---- twins ----
     dict(name="twin: reorder the reset tuple", kind="twin", file=CORE, old=RESET_TUPLE,
          new='''            for k in (
